@@ -9,7 +9,7 @@ CLAIM = {
  "technique": "Lean 4 invariant proofs over update histories for the bookkeeping state machines + history oracle (updated vs rebuilt state) on the real ansaetze"}
 
 RULE = ("for each built-in ansatz x molecule (H2, H4, H4+ open shell) x encoding/ordering: histories of 3-5 update_var_params calls after build_circuit with vectors containing exact zeros, sign changes, repeats, values beyond 2pi; "
-        "compare with a freshly built object after every step; wrong-length vectors; all-zero parameters; non-trivial: >= 2 updates with different vectors; distinct by (ansatz, config, history hash)")
+        "each update given as a list, an array, the ansatz' own var_params object after writing into it, or set_var_params(p) followed by update_var_params(p); compare with a freshly built object after every step; wrong-length vectors; all-zero parameters; non-trivial: >= 2 updates with different vectors; distinct by (ansatz, config, history hash)")
 TRUSTED = ["cirq simulator", "PySCF"]
 ASSUMPTIONS = ["state overlap tolerance 1e-8"]
 
@@ -96,6 +96,8 @@ def history_case(ctx, rng, kind, molname, cfg):
     for st in styles:
         hist.append(list(hist[-1]) if st == "repeat" and hist else rand_vec(rng, n, st))
     case["history"] = hist
+    hows = ["build"] + [rng.choice(["list", "list", "array", "own", "set-then-update"]) for _ in hist[1:]]
+    case["hows"] = hows
     ctx.count(f"hist:{kind}")
     ctx.case({k: v for k, v in case.items() if k != "history"} | {"styles": styles}, nontrivial=len(hist) >= 3, sample=False)
     width = None
@@ -104,7 +106,28 @@ def history_case(ctx, rng, kind, molname, cfg):
             if step == 0:
                 ans.build_circuit(theta)
             else:
-                ans.update_var_params(theta)
+                how = hows[step]
+                if how == "own":
+                    # the caller hands back the ansatz' own parameter vector after writing the new values into it
+                    own = ans.var_params
+                    if isinstance(own, np.ndarray) and own.shape == (n,) and own.flags.writeable and own.dtype.kind == "f":
+                        own[:] = theta
+                        ans.update_var_params(own)
+                        ctx.count("update:own-array")
+                    elif isinstance(own, list) and len(own) == n:
+                        own[:] = theta
+                        ans.update_var_params(own)
+                        ctx.count("update:own-list")
+                    else:
+                        ans.update_var_params(theta)
+                elif how == "set-then-update" and hasattr(ans, "set_var_params"):
+                    ans.set_var_params(list(theta))
+                    ans.update_var_params(list(theta))
+                    ctx.count("update:set-then-update")
+                elif how == "array":
+                    ans.update_var_params(np.array(theta))
+                else:
+                    ans.update_var_params(theta)
         except Exception as e:
             kid = known_id(kind, "raise", type(e).__name__, hist[:step + 1])
             ctx.violation(f"{kind} on {molname} {cfg}: step {step} ({'build' if step == 0 else 'update'}) raised {type(e).__name__}: {str(e)[:80]}",
